@@ -67,10 +67,15 @@ class RemoteLogHandler(mlzlog.Handler):
             subscriptions = self.subscriptions[modname]
         except KeyError:
             return
+        levelname = LEVEL_NAMES.get(record.levelno)
+        if levelname is None:
+            # a level without a name here (e.g. CRITICAL): use the next lower one
+            levelname = LEVEL_NAMES[max((lev for lev in LEVEL_NAMES if lev <= record.levelno and lev != OFF),
+                                        default=DEBUG)]
         for conn, lev in subscriptions.items():
             if record.levelno >= lev:
                 self.send_log(  # pylint: disable=not-callable
-                    conn, modname, LEVEL_NAMES[record.levelno],
+                    conn, modname, levelname,
                     record.getMessage())
 
     def set_conn_level(self, modname, conn, level):
